@@ -7,6 +7,7 @@
 package ristretto
 
 //@ import "github.com/dgraph-io/ristretto/v2/z"
+//@ import "time"
 
 // ---------------------------------------------------------------- sketch.go (C18)
 
@@ -321,3 +322,95 @@ package ristretto
 //@   ensures [C09,C13] #victims forall i int, k uint64 :: 0 <= i && i < len(result0) && k == result0[i].Key ==> result0[i] != nil && !gcHas(p.evict.keyCosts, k) && old(gcHas(p.evict.keyCosts, k)) && result0[i].Cost == old(p.evict.keyCosts[k]) && result0[i].Conflict == 0
 //@   ensures [C04,C09] #victims-distinct forall i, j int :: 0 <= i && i < j && j < len(result0) ==> result0[i].Key != result0[j].Key
 //@   ensures [C13] #others forall k uint64 :: k != key && gcHas(p.evict.keyCosts, k) ==> old(gcHas(p.evict.keyCosts, k)) && p.evict.keyCosts[k] == old(p.evict.keyCosts[k])
+
+// ---------------------------------------------------------------- ttl.go: expirationMap (C14)
+//
+// Lock order: a shard lock (rank 1) may be held while the expiry lock (rank 2) is
+// taken, never the other way round; the policy lock (rank 3) is taken last.
+//@ rank lockedMap 1
+//@ rank expirationMap 2
+//@ rank defaultPolicy 3
+
+//@ spec inBucket[V any](m *expirationMap[V], b int64, k uint64) bool = gcHas(m.buckets, b) && gcHas(m.buckets[b], k)
+//@ spec bucketConf[V any](m *expirationMap[V], b int64, k uint64) uint64 = m.buckets[b][k]
+
+//@ lockinv [C14,C08] expirationMap.RWMutex (m): m.buckets != nil && (forall b int64 :: gcHas(m.buckets, b) ==> m.buckets[b] != nil && gcAllocated(m.buckets[b])) && forall b1, b2 int64 :: gcHas(m.buckets, b1) && gcHas(m.buckets, b2) && b1 != b2 ==> !gcSameRef(m.buckets[b1], m.buckets[b2])
+//@ guards m.buckets, m.buckets[*], m.buckets[*][*], m.lastCleanedBucketNum
+
+//@ func (m *expirationMap) add(key, conflict uint64, expiration time.Time)
+//@   atomic
+//@   requires bucketDurationSecs > 0
+//@   modifies m.buckets[*], m.buckets[*][*]
+//@   ensures [C14] #filed m != nil && !expiration.IsZero() ==> inBucket(m, storageBucket(expiration), key) && bucketConf(m, storageBucket(expiration), key) == conflict
+//@   ensures [C14] #frame m != nil ==> forall b int64, k uint64 :: (b != storageBucket(expiration) || k != key || expiration.IsZero()) ==> inBucket(m, b, k) == old(inBucket(m, b, k)) && (inBucket(m, b, k) ==> bucketConf(m, b, k) == old(bucketConf(m, b, k)))
+
+//@ func (m *expirationMap) update(key, conflict uint64, oldExpTime, newExpTime time.Time)
+//@   atomic
+//@   requires bucketDurationSecs > 0
+//@   modifies m.buckets[*], m.buckets[*][*]
+//@   ensures [C14] #moved m != nil && !newExpTime.IsZero() ==> inBucket(m, storageBucket(newExpTime), key) && bucketConf(m, storageBucket(newExpTime), key) == conflict
+//@   ensures [C14] #removed m != nil && (newExpTime.IsZero() || storageBucket(newExpTime) != storageBucket(oldExpTime)) ==> !inBucket(m, storageBucket(oldExpTime), key)
+//@   ensures [C14] #frame m != nil ==> forall b int64, k uint64 :: k != key || (b != storageBucket(oldExpTime) && (b != storageBucket(newExpTime) || newExpTime.IsZero())) ==> inBucket(m, b, k) == old(inBucket(m, b, k)) && (inBucket(m, b, k) ==> bucketConf(m, b, k) == old(bucketConf(m, b, k)))
+
+//@ func (m *expirationMap) del(key uint64, expiration time.Time)
+//@   atomic
+//@   requires bucketDurationSecs > 0
+//@   modifies m.buckets[*][*]
+//@   ensures [C14] #removed m != nil ==> !inBucket(m, storageBucket(expiration), key)
+//@   ensures [C14] #frame m != nil ==> forall b int64, k uint64 :: (b != storageBucket(expiration) || k != key) ==> inBucket(m, b, k) == old(inBucket(m, b, k)) && (inBucket(m, b, k) ==> bucketConf(m, b, k) == old(bucketConf(m, b, k)))
+
+//@ func (m *expirationMap) clear()
+//@   atomic
+//@   requires bucketDurationSecs > 0
+//@   modifies m.buckets, m.lastCleanedBucketNum
+//@   ensures [C14,C15] #empty m != nil ==> (forall b int64 :: !gcHas(m.buckets, b)) && m.lastCleanedBucketNum == cleanupBucket(gcNow())
+
+// ---------------------------------------------------------------- store.go: lockedMap (C01, C02, C07, C13)
+
+//@ spec sameEntry[V any](a, b storeItem[V]) bool = a.key == b.key && a.conflict == b.conflict && gcSameRef(a.value, b.value) && a.expiration == b.expiration
+//@ spec isItem[V any](e storeItem[V], i *Item[V]) bool = e.key == i.Key && e.conflict == i.Conflict && gcSameRef(e.value, i.Value) && e.expiration == i.Expiration
+//@ spec entryLive[V any](e storeItem[V], now time.Time) bool = e.expiration.IsZero() || !now.After(e.expiration)
+//@ spec conflictOK[V any](e storeItem[V], conflict uint64) bool = conflict == 0 || conflict == e.conflict
+
+//@ lockinv [C01,C08] lockedMap.RWMutex (m): m.data != nil && forall k uint64 :: gcHas(m.data, k) ==> m.data[k].key == k
+//@ guards m.data, m.data[*]
+
+//@ func (m *lockedMap) get(key, conflict uint64) (V, bool)
+//@   atomic
+//@   requires m != nil
+//@   ensures [C01] #stored result1 ==> old(gcHas(m.data, key)) && gcSameRef(result0, old(m.data[key].value)) && conflictOK(old(m.data[key]), conflict) && old(m.data[key].key) == key
+//@   ensures [C07] #live result1 ==> entryLive(old(m.data[key]), gcNow())
+//@   ensures [C07] #notearly !result1 && old(gcHas(m.data, key)) && conflictOK(old(m.data[key]), conflict) ==> !entryLive(old(m.data[key]), gcNow())
+
+//@ func (m *lockedMap) Expiration(key uint64) time.Time
+//@   atomic
+//@   requires m != nil
+//@   ensures [C07] result == old(m.data[key].expiration) && (!old(gcHas(m.data, key)) ==> result.IsZero())
+
+//@ func (m *lockedMap) Set(i *Item[V])
+//@   atomic
+//@   requires m != nil && bucketDurationSecs > 0
+//@   modifies m.data[*], m.em.buckets[*], m.em.buckets[*][*]
+//@   ensures [C01,C13] #others forall k uint64 :: i == nil || k != i.Key ==> gcHas(m.data, k) == old(gcHas(m.data, k)) && sameEntry(m.data[k], old(m.data[k]))
+//@   ensures [C01] #conflict i != nil && old(gcHas(m.data, i.Key)) && !conflictOK(old(m.data[i.Key]), i.Conflict) ==> gcHas(m.data, i.Key) && sameEntry(m.data[i.Key], old(m.data[i.Key]))
+//@   ensures [C01] #value i != nil && gcHas(m.data, i.Key) ==> isItem(m.data[i.Key], i) || (old(gcHas(m.data, i.Key)) && sameEntry(m.data[i.Key], old(m.data[i.Key])))
+//@   ensures [C13] #insert i != nil && !old(gcHas(m.data, i.Key)) ==> gcHas(m.data, i.Key) && isItem(m.data[i.Key], i)
+//@   ensures [C13] #keeps i != nil && old(gcHas(m.data, i.Key)) ==> gcHas(m.data, i.Key)
+
+//@ func (m *lockedMap) Del(key, conflict uint64) (uint64, V)
+//@   atomic
+//@   requires m != nil && bucketDurationSecs > 0
+//@   modifies m.data[*], m.em.buckets[*][*]
+//@   ensures [C01,C13] #others forall k uint64 :: k != key ==> gcHas(m.data, k) == old(gcHas(m.data, k)) && sameEntry(m.data[k], old(m.data[k]))
+//@   ensures [C02,C13] #removed old(gcHas(m.data, key)) && conflictOK(old(m.data[key]), conflict) ==> !gcHas(m.data, key) && result0 == old(m.data[key].conflict) && gcSameRef(result1, old(m.data[key].value))
+//@   ensures [C01,C02] #kept !(old(gcHas(m.data, key)) && conflictOK(old(m.data[key]), conflict)) ==> gcHas(m.data, key) == old(gcHas(m.data, key)) && sameEntry(m.data[key], old(m.data[key])) && result0 == 0 && gcSameRef(result1, zeroValue[V]())
+
+//@ func (m *lockedMap) Update(newItem *Item[V]) (V, bool)
+//@   atomic
+//@   requires m != nil && newItem != nil && bucketDurationSecs > 0
+//@   modifies m.data[*], m.em.buckets[*], m.em.buckets[*][*]
+//@   ensures [C01,C13] #others forall k uint64 :: k != newItem.Key ==> gcHas(m.data, k) == old(gcHas(m.data, k)) && sameEntry(m.data[k], old(m.data[k]))
+//@   ensures [C13] #domain gcHas(m.data, newItem.Key) == old(gcHas(m.data, newItem.Key))
+//@   ensures [C02,C06] #updated result1 ==> old(gcHas(m.data, newItem.Key)) && conflictOK(old(m.data[newItem.Key]), newItem.Conflict) && isItem(m.data[newItem.Key], newItem) && gcSameRef(result0, old(m.data[newItem.Key].value))
+//@   ensures [C01,C02] #refused !result1 ==> sameEntry(m.data[newItem.Key], old(m.data[newItem.Key]))
+//@   ensures [C01] #absent !old(gcHas(m.data, newItem.Key)) || !conflictOK(old(m.data[newItem.Key]), newItem.Conflict) ==> !result1 && gcSameRef(result0, zeroValue[V]())
